@@ -164,6 +164,43 @@ Example C04_monitor_rejects_wrong_declaration :
   check_read cfg_basic3 2 [11; 2; 9; 0; 0; 42] = Bad t_decl_value.
 Proof. vm_compute. reflexivity. Qed.
 
+(* ---- (e) every handle that a response REPORTS is the handle under which that attribute is accessed
+   (monitor clause reported_handle, AttDbSpec.check_discovery): every entry of a Find Information, Read By
+   Type, Read By Group Type or Find By Type Value response names a handle of [assign cfg] whose declared
+   attribute is the one the entry describes (type; declaration value with the assigned value handle; group
+   end and service uuid).
+   NOT PROVED for the model (monitored on the implementation and tied, see docs/C04.md): the statement is *)
+Definition C04_reported_handles_full : Prop :=
+  forall c st cid pdu n st' rs,
+    wf c -> no_includes c ->
+    att_input c st cid pdu n = Some (st', rs) -> check_discovery c pdu rs = Ok.
+(* (it additionally needs the exclusion of the marker uuid 0x0001, cf. C01_marker_uuid_faults; a proof would go
+   through att-disc's byte-exact response theorems AttSrvProofsC02.find_information_spec /
+   read_by_group_type_spec / AttSrvProofsC03.find_by_type_value_spec and AttSrvProofsC02.table_handles.)
+   What is checked here: the clause accepts the model's own responses on the corpus configuration
+   `fixed_handles` (characteristic discovery over gaps, at MTU 65), and it rejects the response of the
+   seeded regression "later tuples report first_handle + (index - first_index)": the declaration at
+   handle 9 reported as 7, the one at 20 as 10. *)
+Example C04_reported_handles_model_accepted :
+  let c := cfg_fixed_handles in
+  forallb (fun pdu => match att_input c (srv_init c) O pdu 65 with
+                      | Some (_, rs) => match check_discovery c pdu rs with Ok => true | Bad _ => false end
+                      | None => false
+                      end)
+          [[8; 1; 0; 255; 255; 3; 40]; [8; 3; 0; 23; 0; 3; 40]; [8; 1; 0; 255; 255; 0; 40]; [8; 1; 0; 255; 255; 2; 41];
+           [4; 1; 0; 255; 255]; [4; 9; 0; 255; 255]; [16; 1; 0; 255; 255; 0; 40]; [16; 4; 0; 255; 255; 0; 40];
+           [6; 1; 0; 255; 255; 0; 40; 16; 24]; [6; 1; 0; 255; 255; 0; 40; 18; 24]] = true.
+Proof. vm_compute. reflexivity. Qed.
+
+Example C04_monitor_rejects_derived_handles :
+  check_discovery cfg_fixed_handles [8; 3; 0; 23; 0; 3; 40]
+    [9; 7; 5; 0; 10; 6; 0; 0; 42; 7; 0; 26; 12; 0; 1; 42; 10; 0; 10; 22; 0; 2; 42] = Bad t_reported_handle
+  /\ check_discovery cfg_fixed_handles [8; 3; 0; 23; 0; 3; 40]
+    [9; 7; 5; 0; 10; 6; 0; 0; 42; 9; 0; 26; 12; 0; 1; 42; 20; 0; 10; 22; 0; 2; 42] = Ok
+  /\ check_discovery cfg_fixed_handles [16; 1; 0; 255; 255; 0; 40] [17; 6; 3; 0; 22; 0; 16; 24] = Bad t_reported_handle
+  /\ check_discovery cfg_fixed_handles [4; 1; 0; 255; 255] [5; 1; 3; 0; 0; 40; 4; 0; 3; 40] = Bad t_reported_handle.
+Proof. repeat split; vm_compute; reflexivity. Qed.
+
 (* constants the model uses are the code's (regenerated from codes.hpp on every run) *)
 From BT Require gen.GenAttSrv.
 Example C04_constants_are_the_codes :
